@@ -14,6 +14,8 @@ import json, os, resource
 from vp import val, coqrun, rustrun
 from vp.val import cN, cbool, clist, cpair
 from gen.common import IPV4, IPV6
+IPV4_MC = (1 << 16) | 2
+IPV6_MC = (2 << 16) | 2
 
 MARKER = [255] * 16
 
@@ -502,6 +504,344 @@ def net_state(changes, addr):
                 st.pop(k, None)
     return st
 
+# ------------------------------------------------------------------ classes enumerated on EVERY run
+# (generator audit: one class per clause of the property text and per branch / comparison /
+# format switch of the anchored functions, with the values on both sides of each boundary)
+
+H4 = [0, 0, 65001, [10, 0, 0, 1], 0, [192, 0, 2, 1], 7]
+H6 = [0, 0x40, 4200000000, [10, 0, 0, 2], 0, list(V6S[0]), 1700000000]
+A0 = ATTRSETS[0]
+NH4, NH6, NH6LL = [[192, 0, 2, 9]], [list(V6S[5])], [list(V6S[0]) + list(V6S[1])]
+
+def host_entries(v6, n, ap=0, start=0):
+    out = []
+    for k in range(start, start + n):
+        addr = ([0x20, 1] + [0] * 10 + be(4, k)) if v6 else [10] + be(3, k)
+        out.append([(k % 3) if ap else 0, [1 if v6 else 0, 128 if v6 else 32, addr]])
+    return out
+
+def all_masks(v6):
+    n = 16 if v6 else 4
+    out = []
+    for m in range(0, (128 if v6 else 32) + 1):
+        nb = (m + 7) // 8
+        addr = [0xa5] * nb + [0] * (n - nb)
+        if m % 8 and nb:
+            addr[nb - 1] = (0xa5 >> (8 - m % 8)) << (8 - m % 8)      # no bits beyond the mask
+        out.append([0, [1 if v6 else 0, m, addr]])
+    return out
+
+def opaque(n, code=99, flags=0xc0):
+    return [2, code, flags, [-1, n, 7]] if n > 64 else [2, code, flags, [7] * n]
+
+ATTR_KINDS = [
+    ('origin_igp', [[0, 1, 0]]), ('origin_egp', [[0, 1, 1]]), ('origin_incomplete', [[0, 1, 2]]),
+    ('aspath_empty', [[1, 2, []]]), ('aspath_seq1', [[1, 2, [2, 1, 0, 0, 253, 233]]]),
+    ('aspath_set', [[1, 2, [1, 2, 0, 0, 0, 1, 255, 255, 255, 255]]]),
+    ('aspath_two_segments', [[1, 2, [2, 1, 0, 0, 253, 233, 1, 1, 0, 0, 0, 7]]]),
+    ('aspath_seg_63', [[1, 2, [2, 63] + [0, 0, 253, 233] * 63]]),          # 254 bytes: one-octet length
+    ('aspath_seg_64', [[1, 2, [2, 64] + [0, 0, 253, 233] * 64]]),          # 258 bytes: extended length
+    ('aspath_seg_255', [[1, 2, [2, 255] + [0, 1, 2, 3] * 255]]),
+    ('aspath_confed', [[1, 2, [3, 1, 0, 0, 253, 232, 2, 1, 0, 0, 253, 233]]]),
+    ('med_0', [[0, 4, 0]]), ('med_max', [[0, 4, 2 ** 32 - 1]]), ('local_pref', [[0, 5, 100]]),
+    ('atomic_aggregate', [[1, 6, []]]), ('aggregator', [[1, 7, [0, 0, 253, 233, 10, 0, 0, 1]]]),
+    ('community_1', [[1, 8, [255, 255, 0, 6]]]), ('community_252', [[1, 8, [0, 1, 0, 2] * 63]]),
+    ('community_256', [[1, 8, [0, 1, 0, 2] * 64]]),
+    ('rr_originator_and_cluster_list', [[0, 9, 0x0a000001], [1, 10, [10, 0, 0, 1, 10, 0, 0, 2]]]),
+    ('ext_community', [[1, 16, [0, 2, 253, 233, 0, 0, 0, 1]]]), ('large_community', [[1, 32, [0, 0, 0, 1, 0, 0, 0, 2, 0, 0, 0, 3]]]),
+    ('aigp', [[1, 26, [1, 0, 11, 0, 0, 0, 0, 0, 0, 0, 9]]]),
+    ('unknown_transitive', [opaque(5)]), ('unknown_partial', [opaque(5, 98, 0xe0)]),
+    ('unknown_255', [opaque(255)]), ('unknown_256', [opaque(256)]), ('unknown_empty', [opaque(0)]),
+    ('every_kind', [[0, 4, 5], [0, 5, 6], [1, 6, []], [1, 7, [0, 0, 253, 233, 10, 0, 0, 1]], [1, 8, [0, 1, 0, 2]],
+                    [0, 9, 1], [1, 10, [1, 1, 1, 1]], [1, 16, [0, 2, 253, 233, 0, 0, 0, 1]], [1, 32, [0] * 12], opaque(3)]),
+]
+
+def upd(fam, kind, entries=None, nh=None, attrs=None):
+    if kind == 2: return [2, 2, fam]
+    if kind == 1: return [2, 1, fam, entries]
+    return [2, 0, fam, entries, nh, attrs if attrs is not None else A0]
+
+def update_forms():
+    """(class name, update spec, addpath) for every family x kind x add-path x next-hop form"""
+    out = []
+    for v6 in (0, 1):
+        fam = IPV6 if v6 else IPV4
+        f = 'v6' if v6 else 'v4'
+        nhs = [('nh6', NH6), ('nh6ll', NH6LL), ('nh4mapped', NH4)] if v6 else [('nh4', NH4), ('nh6_rfc8950', NH6), ('nh6ll_rfc8950', NH6LL)]
+        for ap in (0, 1):
+            for nm, nh in nhs:
+                out.append(('reach_%s_%s_ap%d' % (f, nm, ap), upd(fam, 0, host_entries(v6, 2, ap), nh), ap))
+            out.append(('unreach_%s_ap%d' % (f, ap), upd(fam, 1, host_entries(v6, 2, ap)), ap))
+            out.append(('eor_%s_ap%d' % (f, ap), upd(fam, 2), ap))
+        out.append(('reach_%s_all_masks' % f, upd(fam, 0, all_masks(v6), NH6 if v6 else NH4), 0))
+        out.append(('unreach_%s_all_masks' % f, upd(fam, 1, all_masks(v6)), 0))
+        out.append(('reach_%s_path_ids' % f, upd(fam, 0, [[pid, all_masks(v6)[8 + k][1]] for k, pid in enumerate([0, 1, 255, 256, 65535, 65536, 2 ** 32 - 1])], NH6 if v6 else NH4), 1))
+        out.append(('reach_%s_path_ids_without_addpath' % f, upd(fam, 0, [[5, all_masks(v6)[24][1]], [2 ** 32 - 1, all_masks(v6)[16][1]]], NH6 if v6 else NH4), 0))
+        out.append(('reach_%s_single_default_route' % f, upd(fam, 0, [all_masks(v6)[0]], NH6 if v6 else NH4), 0))
+    # another SAFI through the same path (everything but IPv4 unicast goes through MP_REACH / MP_UNREACH):
+    # IPv4 / IPv6 multicast, whose NLRI are plain prefixes
+    for fam, v6, f in ((IPV4_MC, 0, 'v4_multicast'), (IPV6_MC, 1, 'v6_multicast')):
+        for ap in (0, 1):
+            out.append(('reach_%s_ap%d' % (f, ap), upd(fam, 0, host_entries(v6, 3, ap), NH6 if v6 else NH4), ap))
+            out.append(('unreach_%s_ap%d' % (f, ap), upd(fam, 1, host_entries(v6, 3, ap)), ap))
+        out.append(('eor_%s' % f, upd(fam, 2), 0))
+        out.append(('reach_%s_all_masks' % f, upd(fam, 0, all_masks(v6), NH6 if v6 else NH4), 0))
+    for nm, at in ATTR_KINDS:
+        base = [] if nm.startswith(('origin', 'aspath')) else []
+        attrs = ([[0, 1, 0]] if not nm.startswith('origin') else []) + at + ([[1, 2, [2, 1, 0, 0, 253, 233]]] if not nm.startswith('aspath') else [])
+        attrs.sort(key=lambda a: a[1])
+        out.append(('attr_' + nm, upd(IPV4, 0, host_entries(0, 1), NH4, attrs), 0))
+    return out
+
+# the number of host routes around which encode_to starts a second frame (4096-octet limit):
+# (family, kind, add-path, next hop) -> window of counts holding the last fit and the first split
+def split_windows():
+    w = []
+    w.append(('v4_reach', upd, (IPV4, 0), 0, NH4, range(809, 813)))          # 43 + 5n
+    w.append(('v4_reach_addpath', upd, (IPV4, 0), 1, NH4, range(449, 452)))  # 43 + 9n
+    w.append(('v4_unreach', upd, (IPV4, 1), 0, None, range(813, 817)))       # 23 + 5n
+    w.append(('v6_reach', upd, (IPV6, 0), 0, NH6, range(236, 240)))          # 61 + 17n
+    w.append(('v6_unreach', upd, (IPV6, 1), 0, None, range(238, 242)))       # 30 + 17n
+    w.append(('v4_reach_rfc8950', upd, (IPV4, 0), 0, NH6, range(805, 809)))  # 61 + 5n
+    out = []
+    for nm, _, (fam, kind), ap, nh, rng_ in w:
+        for n in rng_:
+            out.append(('split_%s_%d' % (nm, n), upd(fam, kind, host_entries(fam == IPV6, n, ap), nh), ap))
+    out.append(('split_three_frames_v4', upd(IPV4, 0, host_entries(0, 1700), NH4), 0))
+    out.append(('split_three_frames_v6_addpath', upd(IPV6, 1, host_entries(1, 450, 1)), 1))
+    return out
+
+def big_attr_forms():
+    """attribute blocks around the size that leaves room for exactly one / no NLRI in 4096 octets"""
+    out = []
+    # frame = 19 + 4 + attrs + 7 (NEXT_HOP) + 5 (one /32); attrs = 4 (ORIGIN) + 9 (AS_PATH) + 4 + n (opaque, extended)
+    for nm, n in (('fits_exactly', 4096 - 19 - 4 - 7 - 5 - 13 - 4), ('one_octet_too_long', 4096 - 19 - 4 - 7 - 5 - 13 - 4 + 1), ('5000', 5000)):
+        out.append(('attrs_' + nm, upd(IPV4, 0, host_entries(0, 1), NH4, [[0, 1, 0], [1, 2, [2, 1, 0, 0, 253, 233]], opaque(n)]), 0))
+    return out
+
+OPEN_FORMS = [
+    ('no_caps', [1, 65001, 90, 0x0a000001, []]),
+    ('as_trans_with_as4', [1, 4200000000, 90, 0x0a000001, [[65, 4200000000]]]),
+    ('as_65535', [1, 65535, 0, 0x0a000001, [[65, 65535]]]),
+    ('as_65536', [1, 65536, 3, 0x0a000001, [[65, 65536]]]),
+    ('hold_max', [1, 1, 65535, 0xc0000201, []]),
+    ('every_capability', [1, 65001, 180, 0x0a000001, [[1, IPV4], [1, IPV6], [2], [5, [[IPV4, 2]]], [6], [64, 8, 4095, [[IPV4, 128], [IPV6, 0]]],
+                                                      [65, 65001], [69, [[IPV4, 1], [IPV6, 3]]], [70], [71, [[IPV4, 0, 16777215]]],
+                                                      [73, [104, 111, 115, 116], [100, 111, 109]], [0, 200, []]]]),
+    ('caps_253_octets', [1, 65001, 90, 0x0a000001, [[0, 201, [9] * 251]]]),        # cap_len + 2 = 255: the largest that fits
+]
+
+NOTIF_FORMS = [[3, 6, 2, []], [3, 1, 2, [0, 18]], [3, 3, 5, [-1, 255, 3]], [3, 2, 7, [65, 4, 0, 0, 253, 233]], [3, 4, 0, []], [3, 6, 9, []]]
+
+def enum_cases():
+    cases = []
+    def add(cls, c):
+        c['cls'] = cls
+        cases.append(c)
+    forms = update_forms()
+    # ---- BMP: per-peer header matrix (peer type x flags x address shape), small EoR body
+    addrs = [('v4', [192, 0, 2, 1]), ('v4_zero', [0, 0, 0, 0]), ('v6', list(V6S[0])), ('v6_looks_like_padded_v4', [0] * 12 + [10, 0, 0, 1]),
+             ('v6_zero', [0] * 16), ('v6_ones', [255] * 16)]
+    k = 0
+    for an, a in addrs:
+        ms = []
+        for pt in (0, 1, 2, 3):
+            for fl in DAEMON_FLAGS:
+                ms.append([0, [pt, fl, ASNS[k % len(ASNS)], V4S[k % len(V4S)], DISTS[k % len(DISTS)], a, U32S[k % len(U32S)]], upd(IPV4 if k % 2 else IPV6, 2), 0])
+                k += 1
+        add('bmp_hdr_matrix_' + an, {'kind': 'bmp', 'pre': [], 'msgs': ms})
+    # ---- BMP: every update form, alone in a session
+    for nm, u, ap in forms:
+        add('bmp_' + nm, {'kind': 'bmp', 'pre': [], 'msgs': [[0, H6 if u[2] >> 16 == 2 else H4, u, ap]]})
+    for nm, u, ap in split_windows():
+        add('bmp_' + nm, {'kind': 'bmp', 'pre': [], 'msgs': [[0, H4, u, ap]]})
+    for nm, u, ap in big_attr_forms():
+        add('bmp_' + nm, {'kind': 'bmp', 'pre': [], 'msgs': [[0, H4, u, ap]]})
+    # ---- BMP: one codec, one buffer, forms that must not leak state into each other
+    leak = [f for f in forms if f[0] in ('reach_v4_nh6_rfc8950_ap1', 'reach_v4_nh4_ap0', 'unreach_v4_ap0', 'eor_v4_ap0', 'reach_v6_nh6_ap1',
+                                         'reach_v6_nh6_ap0', 'reach_v4_nh6ll_rfc8950_ap0', 'unreach_v4_ap1', 'reach_v4_nh4_ap1', 'eor_v6_ap1')]
+    order = ['reach_v4_nh6_rfc8950_ap1', 'reach_v4_nh4_ap0', 'reach_v4_nh6ll_rfc8950_ap0', 'unreach_v4_ap0', 'reach_v6_nh6_ap1', 'reach_v6_nh6_ap0',
+             'reach_v4_nh4_ap1', 'unreach_v4_ap1', 'reach_v4_nh6_rfc8950_ap1', 'eor_v4_ap0', 'eor_v6_ap1', 'reach_v4_nh4_ap0']
+    byname = dict((f[0], f) for f in leak)
+    ms = []
+    for nm in order:
+        _, u, ap = byname[nm]
+        ms.append([0, H6 if u[2] == IPV6 else H4, u, ap])
+    ms.insert(4, [3, H4, [10, 0, 0, 9], 179, 40000, OPEN_FORMS[0][1], OPEN_FORMS[1][1]])
+    ms.insert(8, [2, H6, [1, NOTIF_FORMS[0]]])
+    add('bmp_codec_state_across_messages', {'kind': 'bmp', 'pre': [1, 2, 3], 'msgs': ms})
+    # the 4096-octet limit must be back in force after an update that needed the extended one
+    big = big_attr_forms()[2][1]
+    sw = dict((f[0], f) for f in split_windows())
+    add('bmp_codec_state_after_extended_length', {'kind': 'bmp', 'pre': [], 'msgs': [[0, H4, big, 0], [0, H4, sw['split_v4_reach_812'][1], 0], [0, H4, big, 0], [0, H4, sw['split_v4_unreach_816'][1], 0]]})
+    # ---- BMP: Peer Down, every reason x peer family; FSM code and NOTIFICATION data boundaries
+    for hn, h in (('v4', H4), ('v6', H6)):
+        ms = [[2, h, [1, n]] for n in NOTIF_FORMS[:3]] + [[2, h, [2, c]] for c in (0, 1, 255, 256, 65535)] + \
+             [[2, h, [3, n]] for n in NOTIF_FORMS[3:]] + [[2, h, [4]], [2, h, [5]]]
+        add('bmp_peer_down_all_reasons_' + hn, {'kind': 'bmp', 'pre': [], 'msgs': ms})
+    # ---- BMP: Peer Up, local/peer family combinations, port boundaries, OPEN forms
+    for hn, h in (('v4', H4), ('v6', H6)):
+        for ln, la in (('v4', [10, 0, 0, 9]), ('v6', list(V6S[5]))):
+            ms = [[3, h, la, lp, rp, OPEN_FORMS[i % len(OPEN_FORMS)][1], OPEN_FORMS[(i + 3) % len(OPEN_FORMS)][1]]
+                  for i, (lp, rp) in enumerate([(0, 0), (179, 65535), (65535, 1), (255, 256)])]
+            add('bmp_peer_up_peer_%s_local_%s' % (hn, ln), {'kind': 'bmp', 'pre': [], 'msgs': ms})
+    for nm, o in OPEN_FORMS:
+        add('bmp_open_' + nm, {'kind': 'bmp', 'pre': [], 'msgs': [[3, H4, [10, 0, 0, 9], 179, 179, o, OPEN_FORMS[0][1]], [3, H6, list(V6S[5]), 1, 2, OPEN_FORMS[0][1], o]]})
+    # ---- BMP: Initiation, TLV count and length boundaries
+    add('bmp_initiation_no_tlv', {'kind': 'bmp', 'pre': [], 'msgs': [[4, []], [4, []]]})
+    for ln in (0, 1, 255, 256, 4095, 4096, 65535):
+        add('bmp_initiation_len_%d' % ln, {'kind': 'bmp', 'pre': [], 'msgs': [[4, [[1, [-1, ln, 66] if ln > 64 else [66] * ln], [65535, [1]]]]]})
+    add('bmp_initiation_64_tlvs', {'kind': 'bmp', 'pre': [], 'msgs': [[4, [[t % 3, [t] * (t % 5)] for t in range(64)]]]})
+    # ---- BMP: pre-filled buffers of every length up to one per-peer header
+    for n in (1, 5, 6, 7, 41, 42, 43, 48):
+        add('bmp_prefill_%d' % n, {'kind': 'bmp', 'pre': [(3 * i + 1) % 256 for i in range(n)],
+                                   'msgs': [[4, [[2, [114]]]], [0, H4, upd(IPV4, 1, host_entries(0, 1)), 0], [2, H6, [4]]]})
+    # ---- BMP, correspondence only (outside the quantifier): kinds the daemon never emits, V bit from the caller,
+    # a Route Monitoring around something that is not an UPDATE
+    add('bmp_api_stats_termination_mirroring', {'kind': 'bmp', 'pre': [9], 'msgs': [[1], [5], [6], [1]], 'api_only': 1})
+    for fl in (0x80, 0xc0, 0xff):
+        add('bmp_api_caller_flags_%#x' % fl, {'kind': 'bmp', 'pre': [], 'msgs': [[0, [0, fl, 1, [1, 1, 1, 1], 0, [10, 0, 0, 1], 0], upd(IPV4, 2), 0],
+                                                                                [0, [0, fl, 1, [1, 1, 1, 1], 0, list(V6S[0]), 0], upd(IPV6, 2), 0]], 'api_only': 1})
+    add('bmp_api_route_monitoring_of_non_update', {'kind': 'bmp', 'pre': [], 'msgs': [[0, H4, [4], 0], [0, H4, OPEN_FORMS[0][1], 1], [0, H6, NOTIF_FORMS[0], 0], [0, H6, [5, IPV6], 1]], 'api_only': 1})
+    # ---- MRT BGP4MP: header matrix
+    for r6 in (0, 1):
+        ra, la = (list(V6S[0]), list(V6S[5])) if r6 else ([192, 0, 2, 1], [192, 0, 2, 254])
+        ms = [[[ASNS[i], ASNS[-1 - i], U16S[i % len(U16S)], ra, la, 1], upd(IPV6 if i % 2 else IPV4, 2), i % 2] for i in range(len(ASNS))]
+        add('mrt_hdr_%s_as_and_ifindex_bounds' % ('v6' if r6 else 'v4'), {'kind': 'mrt', 'pre': [], 'msgs': ms})
+        for l6 in (0, 1):
+            for as4 in (0, 1):
+                if l6 == r6 and as4:
+                    continue
+                la2 = list(V6S[5]) if l6 else [192, 0, 2, 254]
+                add('mrt_api_hdr_remote_%s_local_%s_as4_%d' % ('v6' if r6 else 'v4', 'v6' if l6 else 'v4', as4),
+                    {'kind': 'mrt', 'pre': [], 'msgs': [[[65001, 65536, 1, ra, la2, as4], upd(IPV4, 2), 0]], 'api_only': 1})
+    MH4 = [65001, 65000, 0, [192, 0, 2, 1], [192, 0, 2, 254], 1]
+    MH6 = [4200000000, 65000, 0, list(V6S[0]), list(V6S[5]), 1]
+    for nm, u, ap in forms:
+        add('mrt_' + nm, {'kind': 'mrt', 'pre': [], 'msgs': [[MH6 if u[2] >> 16 == 2 else MH4, u, ap]]})
+    for nm, u, ap in split_windows():
+        add('mrt_' + nm, {'kind': 'mrt', 'pre': [], 'msgs': [[MH4, u, ap]]})
+    for nm, u, ap in big_attr_forms():
+        add('mrt_' + nm, {'kind': 'mrt', 'pre': [], 'msgs': [[MH4, u, ap]]})
+    ms = []
+    for nm in order:
+        _, u, ap = byname[nm]
+        ms.append([MH6 if u[2] == IPV6 else MH4, u, ap])
+    add('mrt_codec_state_across_messages', {'kind': 'mrt', 'pre': [7], 'msgs': ms})
+    add('mrt_codec_state_after_extended_length', {'kind': 'mrt', 'pre': [], 'msgs': [[MH4, big, 0], [MH4, sw['split_v4_reach_812'][1], 0], [MH4, big, 0], [MH4, sw['split_v4_unreach_816'][1], 0]]})
+    # a BGP4MP record may carry any BGP message
+    add('mrt_bodies_other_than_update', {'kind': 'mrt', 'pre': [], 'msgs': [[MH4, [4], 0], [MH6, OPEN_FORMS[5][1], 0], [MH4, NOTIF_FORMS[2], 1], [MH6, [5, IPV6], 1], [MH4, [4], 1]]})
+    for n in (1, 11, 12, 13):
+        add('mrt_prefill_%d' % n, {'kind': 'mrt', 'pre': list(range(n)), 'msgs': [[MH4, upd(IPV4, 2), 0], [MH6, upd(IPV6, 1, host_entries(1, 1)), 1]]})
+    # ---- TABLE_DUMP_V2
+    def peer(k, v6):
+        return [V4S[k % len(V4S)], (list(V6S[k % len(V6S)]) if v6 else [10, 1, k // 256 % 256, k % 256]), ASNS[k % len(ASNS)]]
+    for n in (0, 1, 2, 255, 256, 257):
+        add('td_peer_count_%d' % n, {'kind': 'td', 'pre': [], 'recs': [[U32S[n % len(U32S)], [0, [1, 1, 1, 1], [peer(k, k % 3 == 0) for k in range(n)]]]]})
+    E = lambda idx, orig, nh, at: [idx, orig, nh, at]
+    for n in (0, 1, 2, 255, 256, 257):
+        for v6 in (0, 1):
+            es = [E(k % 4, k, [] if k % 5 == 4 else (NH6 if v6 else NH4), [] if k % 2 else A0) for k in range(n)]
+            add('td_entry_count_%d_%s' % (n, 'v6' if v6 else 'v4'), {'kind': 'td', 'pre': [], 'recs': [[7, [2 if v6 else 1, n, all_masks(v6)[24][1], es]]]})
+    for v6 in (0, 1):
+        nhs = [('none', []), ('v4', NH4), ('v6', NH6), ('v6ll', NH6LL)]
+        es = [E(i, U32S[i], nh, A0) for i, (_, nh) in enumerate(nhs)] + [E(65535, 2 ** 32 - 1, nh, []) for _, nh in nhs]
+        add('td_nexthop_forms_%s_table' % ('v6' if v6 else 'v4'), {'kind': 'td', 'pre': [], 'recs': [[2 ** 32 - 1, [2 if v6 else 1, 2 ** 32 - 1, all_masks(v6)[17][1], es]]]})
+        add('td_all_prefix_lengths_' + ('v6' if v6 else 'v4'), {'kind': 'td', 'pre': [], 'recs': [[0, [2 if v6 else 1, k, e[1], [E(0, 0, [], [])]]] for k, e in enumerate(all_masks(v6))]})
+    # attribute block length: the two-octet field around its one-octet and both-octet carries
+    for ln in (0, 1, 240, 241, 242, 248, 249, 255, 256, 65527, 65528):
+        # block = 4 (ORIGIN) + 3|4 + ln (opaque) [+ 7 NEXT_HOP]
+        add('td_attr_block_opaque_%d' % ln, {'kind': 'td', 'pre': [], 'recs': [[7, [1, 1, [0, 8, [10, 0, 0, 0]], [E(0, 1, NH4 if ln < 65000 else [], [[0, 1, 0], opaque(ln)])]]]], 'api_only': int(ln > 65527)})
+    add('td_every_attribute_kind', {'kind': 'td', 'pre': [], 'recs': [[7, [1, 1, [0, 8, [10, 0, 0, 0]], [E(0, 1, NH4, at) for _, at in ATTR_KINDS]]]]})
+    add('td_whole_dump_in_one_buffer', {'kind': 'td', 'pre': [5, 5], 'recs': [[9, [0, [1, 1, 1, 1], [peer(0, 0), peer(1, 1)]]],
+                                                                             [9, [1, 0, all_masks(0)[24][1], [E(0, 9, NH4, A0), E(1, 9, NH6, A0)]]],
+                                                                             [9, [1, 1, all_masks(0)[8][1], [E(1, 9, NH4, A0)]]],
+                                                                             [9, [2, 0, all_masks(1)[64][1], [E(1, 9, NH6LL, A0)]]]]})
+    add('td_api_rib_v4_record_with_v6_prefix', {'kind': 'td', 'pre': [], 'recs': [[7, [1, 0, all_masks(1)[64][1], [E(0, 0, NH4, A0)]]], [7, [2, 0, all_masks(0)[24][1], [E(0, 0, NH6, A0)]]]], 'api_only': 1})
+    # ---- daemon-side converters
+    S4, S6 = SOURCES[0], SOURCES[2]
+    for v6 in (0, 1):
+        fam = IPV6 if v6 else IPV4
+        src = S6 if v6 else S4
+        nhl = ([NH6, NH6LL, NH4] if v6 else [NH4, NH6, NH6LL])
+        for ap in (0, 1):
+            for ne in (0, 1, 2):
+                es = host_entries(v6, ne, ap)
+                for reach in (1, 0):
+                    for nh in (nhl if reach else [[]]):
+                        ch = [src, fam, ap, es, [A0] if reach else [], nh, U32S[(ne + ap) % len(U32S)]]
+                        nm = '%s_%s_ap%d_n%d_nh%d' % ('v6' if v6 else 'v4', 'reach' if reach else 'withdraw', ap, ne, len(nh[0]) if nh else 0)
+                        add('dconv_' + nm, {'kind': 'dconv', 'change': ch})
+                        if ne:
+                            add('dmrt_' + nm, {'kind': 'dmrt', 'change': ch})
+        for reach in (1, 0):
+            for mi in (0, 1, 8, 9, 32) + ((64, 127, 128) if v6 else ()):
+                for nh in (nhl if reach else [[]]):
+                    add('dloc_%s_%s_mask%d_nh%d' % ('v6' if v6 else 'v4', 'reach' if reach else 'withdraw', mi, len(nh[0]) if nh else 0),
+                        {'kind': 'dloc', 'family': fam, 'net': all_masks(v6)[mi][1], 'attrs': [A0] if reach else [], 'nexthop': nh,
+                         'ts': U32S[mi % len(U32S)], 'rid': V4S[mi % len(V4S)], 'asn': ASNS[mi % len(ASNS)]})
+    # the Loc-RIB virtual peer's Peer Up, for every AS-number width; the live Peer Down for every
+    # SessionDownReason; the Adj-RIB-Out converter
+    for asn in ASNS:
+        for rid in (V4S[0], V4S[4]):
+            add('dlocup_asn_%d' % asn, {'kind': 'dlocup', 'rid': rid, 'asn': asn})
+    for h in (H4, H6):
+        for nm, r in (('none', []), ('hold_timer', [0]), ('remote_notification', [1, NOTIF_FORMS[1]]), ('local_notification', [2, NOTIF_FORMS[0]]),
+                      ('remote_notification_with_data', [1, NOTIF_FORMS[2]]), ('fsm_error', [3]), ('admin_shutdown', [4]), ('io_error', [5])):
+            add('ddown_%s_peer_%s' % (nm, 'v6' if len(h[5]) == 16 else 'v4'), {'kind': 'ddown', 'reason': r, 'hdr': h})
+    for v6 in (0, 1):
+        fam = IPV6 if v6 else IPV4
+        for ap in (0, 1):
+            for reach in (1, 0):
+                add('dout_%s_%s_ap%d' % ('v6' if v6 else 'v4', 'reach' if reach else 'withdraw', ap),
+                    {'kind': 'dout', 'peer': [S6[0] if v6 else S4[0], ASNS[ap + 5], 0x0a000001], 'family': fam, 'addpath': ap,
+                     'entry': host_entries(v6, 1, ap, 1 + ap)[0], 'attrs': [A0] if reach else [], 'nexthop': (NH6 if v6 else NH4) if reach else [], 'ts': 9})
+    # a session of another family than the peer address (cannot happen over TCP: correspondence only)
+    mixed = [list(S4[0]), list(S6[1]), 1, 2, S4[4]]
+    add('dmrt_api_local_address_of_other_family', {'kind': 'dmrt', 'change': [mixed, IPV4, 0, host_entries(0, 1), [A0], NH4, 1], 'api_only': 1})
+    P = SMALL_NLRI
+    def ch(src, fam, ap, es, reach, ts=5, at=None):
+        return [src, fam, ap, es, [at if at is not None else A0] if reach else [], (NH6 if fam == IPV6 else NH4) if reach else [], ts]
+    e = lambda fam, i, pid=0: [pid, P[fam][i]]
+    scripts = [
+        ('no_events', []),
+        ('reach_only', [ch(S4, IPV4, 0, [e(IPV4, 0)], 1)]),
+        ('reach_then_withdraw', [ch(S4, IPV4, 0, [e(IPV4, 0)], 1), ch(S4, IPV4, 0, [e(IPV4, 0)], 0)]),
+        ('withdraw_then_reach', [ch(S4, IPV4, 0, [e(IPV4, 0)], 0), ch(S4, IPV4, 0, [e(IPV4, 0)], 1)]),
+        ('withdraw_of_unknown_peer', [ch(S4, IPV4, 0, [e(IPV4, 0)], 0)]),
+        ('replace_keeps_last', [ch(S4, IPV4, 0, [e(IPV4, 0)], 1, 5, ATTRSETS[0]), ch(S4, IPV4, 0, [e(IPV4, 0)], 1, 6, ATTRSETS[1])]),
+        ('two_families', [ch(S4, IPV4, 0, [e(IPV4, 0)], 1), ch(S4, IPV6, 0, [e(IPV6, 0)], 1), ch(S4, IPV6, 0, [e(IPV6, 1)], 1)]),
+        ('family_emptied_by_withdrawal', [ch(S4, IPV4, 0, [e(IPV4, 0)], 1), ch(S4, IPV6, 0, [e(IPV6, 0)], 1), ch(S4, IPV6, 0, [e(IPV6, 0)], 0)]),
+        ('two_peers_same_prefix', [ch(S4, IPV4, 0, [e(IPV4, 0)], 1), ch(SOURCES[1], IPV4, 0, [e(IPV4, 0)], 1, 9)]),
+        ('other_peer_withdraws', [ch(S4, IPV4, 0, [e(IPV4, 0)], 1), ch(SOURCES[1], IPV4, 0, [e(IPV4, 0)], 0)]),
+        ('addpath_two_ids_one_withdrawn', [ch(S4, IPV4, 1, [e(IPV4, 0, 1)], 1), ch(S4, IPV4, 1, [e(IPV4, 0, 2)], 1), ch(S4, IPV4, 1, [e(IPV4, 0, 1)], 0)]),
+        ('multi_nlri_change_partly_withdrawn', [ch(S4, IPV4, 0, [e(IPV4, 0), e(IPV4, 1), e(IPV4, 2)], 1), ch(S4, IPV4, 0, [e(IPV4, 1)], 0)]),
+        ('same_prefix_in_two_families_of_keys', [ch(S4, IPV4, 0, [e(IPV4, 3)], 1), ch(S4, IPV4, 0, [e(IPV4, 0)], 1), ch(S4, IPV4, 0, [e(IPV4, 3)], 0)]),
+        ('v6_peer', [ch(S6, IPV6, 0, [e(IPV6, 0)], 1), ch(S6, IPV4, 0, [e(IPV4, 0)], 1)]),
+    ]
+    for nm, cs in scripts:
+        for who, wn in ((S4, 'peer'), (S6, 'v6peer'), (SOURCES[3], 'absent_peer')):
+            for fl in (0, 0x40):
+                add('dflush_%s_flush_%s_flags_%#x' % (nm, wn, fl), {'kind': 'dflush', 'changes': cs, 'addr': who[0],
+                    'hdr': [0, fl, who[2], who[4], 0, who[0], 77], 'flags': fl})
+    R = lambda src, fam, i, pid=0, nh=None: [src, fam, P[fam][i], pid, nh if nh is not None else (NH6 if fam == IPV6 else NH4), A0]
+    dumps = [
+        ('empty', []),
+        ('one_v4', [R(S4, IPV4, 0)]), ('one_v6', [R(S6, IPV6, 0)]),
+        ('v4_and_v6_same_peer', [R(S4, IPV4, 0), R(S4, IPV6, 0)]),
+        ('two_peers_same_prefix', [R(S4, IPV4, 0), R(SOURCES[1], IPV4, 0)]),
+        ('addpath_two_paths_same_peer', [R(S4, IPV4, 0, 1), R(S4, IPV4, 0, 2)]),
+        ('same_route_replaced', [R(S4, IPV4, 0), R(S4, IPV4, 0, 0, [[192, 0, 2, 77]])]),
+        ('four_peers_both_families', [R(SOURCES[i], IPV4, i) for i in range(4)] + [R(SOURCES[i], IPV6, 3 - i) for i in range(4)]),
+        ('v6_link_local_peer_with_v4_routes', [R(SOURCES[3], IPV4, 1), R(SOURCES[3], IPV4, 2)]),
+        ('v4_routes_with_v6_next_hops', [R(S4, IPV4, 0, 0, NH6), R(S6, IPV4, 1, 0, NH6LL)]),
+        ('only_v6_family', [R(S4, IPV6, 0), R(S6, IPV6, 1), R(S6, IPV6, 2)]),
+        ('every_small_prefix_every_peer', [R(SOURCES[i], f, j) for i in range(4) for f in (IPV4, IPV6) for j in range(4)]),
+    ]
+    for nm, routes in dumps:
+        add('ddump_' + nm, {'kind': 'ddump', 'rid': V4S[len(routes) % len(V4S)], 'routes': routes})
+    return cases
+
 # ------------------------------------------------------------------ oracle helpers
 
 def norm_nlri(n):
@@ -515,7 +855,7 @@ def norm_entries(es, addpath):
 def attr_wire(a):
     """wire form of a generated attribute spec (the generator only uses canonical flags)"""
     CANON = {1: 0x40, 2: 0x40, 3: 0x40, 4: 0x80, 5: 0x40, 6: 0x40, 7: 0xc0, 8: 0xc0, 9: 0x80, 10: 0x80,
-             16: 0xc0, 17: 0xc0, 18: 0xc0, 32: 0xc0}
+             16: 0xc0, 17: 0xc0, 18: 0xc0, 23: 0xc0, 26: 0x80, 29: 0x80, 32: 0xc0, 40: 0xc0}
     if a[0] == 0:
         code, v = a[1], a[2]
         return [CANON[code], code] + ([1, v & 255] if code == 1 else [4] + be(4, v))
@@ -534,20 +874,20 @@ def open_expect(o):
         asn = as4[-1] if as4 else 0
     return [1, asn, o[2], o[3], o[4]]
 
+def uinfo(u):
+    return (u[1], u[2]) if u[0] == 2 else (10 + u[0], 0)
+
 def known3(spec):
-    """finding C19-3: an IPv4-unicast announcement whose next hop is IPv6 (RFC 8950)"""
+    """the class of the (fixed) finding C19-3: an IPv4-unicast announcement whose next hop is
+    IPv6 (RFC 8950); it must travel with its NLRI inside MP_REACH_NLRI"""
     return spec[0] == 2 and spec[1] == 0 and spec[2] == IPV4 and bool(spec[4]) and len(spec[4][0]) in (16, 32)
 
-KNOWN3 = 'known C19-3: IPv4 route with an IPv6 next hop is embedded without any next hop'
+KNOWN3 = None
 
 def check_update(spec, addpath, parsed_list):
     """the PDUs of one monitored UPDATE (one per frame) against what was monitored"""
     kind, fam = spec[1], spec[2]
-    if known3(spec):
-        # the listed symptom, and nothing else: NLRI present, no next hop, the parser's
-        # only complaint is the missing NEXT_HOP
-        if all(p[0] == 2 and p[1] and p[1][0][2] == [] and p[6] == 1 and not p[2] for p in parsed_list):
-            return KNOWN3
+    via_mp = fam != IPV4 or known3(spec)
     if kind == 2:
         if len(parsed_list) != 1 or parsed_list[0][0] != 6 or parsed_list[0][1] != fam:
             return 'End-of-RIB for family %d parsed back as %s' % (fam, parsed_list)
@@ -563,15 +903,18 @@ def check_update(spec, addpath, parsed_list):
         if nerr:
             return 'embedded UPDATE has %d attributes the parser rejects' % nerr
         if kind == 0:
-            src = reach if fam == IPV4 else mp_reach
-            if unreach or mp_unreach or (mp_reach if fam == IPV4 else reach):
+            src = mp_reach if via_mp else reach
+            if unreach or mp_unreach or (reach if via_mp else mp_reach):
                 return 'announcement parsed back with routes in the wrong section'
             if not src:
                 return 'announcement parsed back without reachable NLRI'
             f, es, nh = src[0]
             if f != fam:
                 return 'family %d parsed back as %d' % (fam, f)
-            if nh != spec[4]:
+            want_nh = spec[4]
+            if fam == IPV6 and want_nh and len(want_nh[0]) == 4:
+                want_nh = [[0] * 10 + [255, 255] + want_nh[0]]       # RFC 4798: IPv4-mapped form
+            if nh != want_nh:
                 return 'next hop %s parsed back as %s' % (spec[4], nh)
             wa = sorted(tuple(attr_wire(a)) for a in spec[5])
             ga = sorted(tuple(a) for a in attrs)
@@ -590,6 +933,20 @@ def check_update(spec, addpath, parsed_list):
             got += [(e[0] if addpath else 0, norm_nlri(e[1])) for e in es]
     if sorted(got) != want:
         return 'prefixes parsed back differ from the monitored ones (%d monitored, %d read)' % (len(want), len(got))
+    return None
+
+def check_msg(spec, addpath, parsed_list):
+    """the PDUs of one monitored BGP message of any type"""
+    if spec[0] == 2:
+        return check_update(spec, addpath, parsed_list)
+    if len(parsed_list) != 1:
+        return 'a %d-frame rendering of a message that is not an UPDATE' % len(parsed_list)
+    p = parsed_list[0]
+    if p[-1] != 0:
+        return 'embedded message: %d bytes left after the parser consumed the frame' % p[-1]
+    want = {1: lambda: open_expect(spec), 3: lambda: [3, spec[1], spec[2], expand(spec[3])], 4: lambda: [4], 5: lambda: [5, spec[1]]}[spec[0]]()
+    if p[:len(want)] != want:
+        return 'embedded message parsed back as %s, monitored %s' % (p, want)
     return None
 
 def check_peer(pv, h, what):
@@ -614,12 +971,17 @@ class Prop:
     props_file = 'Props/C19.v'
     required_theorems = ['bmp_length_exact', 'bmp_readback', 'bmp_stream_readback', 'bmp_vflag_iff_v6',
                          'mrt_readback', 'mrt_length_exact', 'table_dump_counts_consistent',
-                         'conv_update_faithful', 'loc_rib_header_wf', 'flush_headers_wf', 'dump_peer_indexes_consistent']
+                         'conv_update_faithful', 'loc_rib_header_wf', 'flush_headers_wf', 'dump_peer_indexes_consistent',
+                         'session_down_reason', 'loc_rib_peer_up_wf', 'embed_total', 'needs_rfc8950_iff']
     correspondence_name = ('Model/Bmp.v bmp_encode_all vs packet/src/bmp.rs BmpCodec::encode (harness/hx-mon), '
                            'bytes compared one to one')
-    rule = ('a case is a session: 1..6 messages through one codec into one (possibly pre-filled) buffer; '
-            'non-trivial when it holds an embedded BGP message or TLVs; distinct = distinct '
-            '(message kinds, address families, add-path, frames per UPDATE, body length class)')
+    rule = ('a case is a session (BMP / BGP4MP / TABLE_DUMP_V2: 1..16 items through one codec into one, possibly pre-filled, buffer) '
+            'or one call of a daemon-side converter; about 520 classes are ENUMERATED on every run (tag enum:<class> in the input '
+            'distribution: header matrices, every update form x family x add-path x next-hop form, every prefix length, counts and '
+            'lengths on both sides of every boundary of the code: frame split at 4096 octets, attribute block that leaves room for '
+            'one / no NLRI, 255/256, 65535, every Peer Down reason and SessionDownReason, every capability, scripted snapshot '
+            'histories and RIB contents), the rest is drawn from the seed; non-trivial when it holds an embedded BGP message, '
+            'TLVs, peers or entries; distinct = distinct (kinds, address families, add-path, frames per UPDATE, size class)')
     exhaustive = {'quick': False, 'thorough': False}
     trusted_base = [
         'the BGP encoder is outside this property (C04): embedded BGP messages enter the model as opaque byte strings '
@@ -631,6 +993,7 @@ class Prop:
     assumptions = [
         'caller-supplied per-peer flags do not contain the V bit (true of every header daemon/src/bmp.rs builds); fields have their Rust types (u8/u16/u32/u64, 4/16-octet addresses)',
         'an Initiation TLV value is shorter than 65536 bytes and a message shorter than 2^32 bytes (the daemon sends a version string and the host name)',
+        'NLRI families generated: IPv4/IPv6 unicast and multicast; the other families reach BmpCodec/MrtCodec through the same MP_REACH/MP_UNREACH path, their content is property C04',
     ]
 
     def __init__(self):
@@ -653,9 +1016,9 @@ class Prop:
         return out
 
     def gen_cases(self, rng, tier):
-        cases = []
+        cases = enum_cases()
         q = tier == 'quick'
-        for k in range(250 if q else 2500):
+        for k in range(120 if q else 2500):
             pre = [] if rng.random() < 0.7 else [rng.randrange(256) for _ in range(rng.randrange(1, 9))]
             ms = [gen_bmp_msg(rng) for _ in range(rng.randrange(1, 6))]
             cases.append({'kind': 'bmp', 'pre': pre, 'msgs': ms})
@@ -670,7 +1033,7 @@ class Prop:
         for ln in (65535, 65536, 65537):
             cases.append({'kind': 'bmp', 'pre': [], 'msgs': [[4, [[1, [-1, ln, 65]], [2, [7]]]]], 'api_only': 1})
         # ---- MRT BGP4MP
-        for k in range(150 if q else 1500):
+        for k in range(60 if q else 1500):
             pre = [] if rng.random() < 0.7 else [rng.randrange(256) for _ in range(rng.randrange(1, 9))]
             cases.append({'kind': 'mrt', 'pre': pre, 'msgs': [gen_mp(rng) for _ in range(rng.randrange(1, 5))]})
         for k in range(4 if q else 40):
@@ -684,7 +1047,7 @@ class Prop:
                 m[0] = gen_mph(rng, mixed=True)
             cases.append({'kind': 'mrt', 'pre': [], 'msgs': [m], 'api_only': 1})
         # ---- TABLE_DUMP_V2
-        for k in range(150 if q else 1500):
+        for k in range(80 if q else 1500):
             pre = [] if rng.random() < 0.8 else [rng.randrange(256) for _ in range(rng.randrange(1, 9))]
             cases.append({'kind': 'td', 'pre': pre, 'recs': gen_td(rng)})
         # the u16 count boundaries (correspondence only beyond 65535)
@@ -698,24 +1061,24 @@ class Prop:
             big = [[0, 1, 0], [1, 8, [-1, ln, 1]]]
             cases.append({'kind': 'td', 'pre': [], 'recs': [[7, [1, 1, [0, 8, [10, 0, 0, 0]], [[0, 1, [[10, 0, 0, 1]], big]]]]], 'api_only': api})
         # ---- daemon-side converters (hooks in daemon/src/bmp.rs, daemon/src/mrt.rs)
-        for k in range(60 if q else 800):
+        for k in range(20 if q else 800):
             cases.append({'kind': 'dconv', 'change': gen_change(rng)})
-        for k in range(80 if q else 800):
+        for k in range(20 if q else 800):
             v6 = rng.random() < 0.5
             fam = IPV6 if v6 else IPV4
             reach = rng.random() < 0.7
             cases.append({'kind': 'dloc', 'family': fam, 'net': gen_nlri(rng, v6), 'attrs': [pick(rng, ATTRSETS)] if reach else [],
                           'nexthop': gen_nexthop(rng, v6) if reach else [], 'ts': pick(rng, U32S),
                           'rid': pick(rng, V4S), 'asn': pick(rng, ASNS)})
-        for k in range(100 if q else 800):
+        for k in range(40 if q else 800):
             peers = [pick(rng, SOURCES) for _ in range(2)]
             cs = [gen_change(rng, src=pick(rng, peers), small=True, n=pick(rng, [1, 1, 2])) for _ in range(rng.randrange(0, 9))]
             who = pick(rng, peers + [pick(rng, SOURCES)])
             cases.append({'kind': 'dflush', 'changes': cs, 'addr': who[0],
                           'hdr': [0, pick(rng, [0, 0x40]), who[2], who[4], 0, who[0], pick(rng, U32S)], 'flags': pick(rng, [0, 0x40])})
-        for k in range(60 if q else 800):
+        for k in range(20 if q else 800):
             cases.append({'kind': 'dmrt', 'change': gen_change(rng)})
-        for k in range(80 if q else 800):
+        for k in range(50 if q else 800):
             routes = []
             for _ in range(rng.randrange(0, 9)):
                 v6 = rng.random() < 0.5
@@ -748,7 +1111,7 @@ class Prop:
                 if kind == 'mrt' and r != [-1]:
                     r = [r[0], r[2], r[1]]          # [buffer, blobs, timestamps ok]
                 obs[k] = r
-        for hook, test, kinds in (('C19b', 'bmp::verif_hx::verif_bmp_cases', ('dconv', 'dloc', 'dflush')),
+        for hook, test, kinds in (('C19b', 'bmp::verif_hx::verif_bmp_cases', ('dconv', 'dloc', 'dflush', 'dlocup', 'ddown', 'dout')),
                                   ('C19m', 'mrt::verif_hx::verif_mrt_cases', ('dmrt', 'ddump'))):
             idx = [k for k, c in enumerate(cases) if c['kind'] in kinds]
             if not idx:
@@ -775,9 +1138,22 @@ class Prop:
                 for pdu in v.get('pdus', []):
                     where.append(pl); pl.append(None)
                     ap = flat.pop(0) if flat else 0
-                    jobs.append([[IPV4, IPV6], ap, pdu])
+                    jobs.append([[IPV4, IPV6, IPV4_MC, IPV6_MC], ap, pdu])
                 per.append(pl)
             o.insert(2, per)
+        for k, c in enumerate(cases):
+            o = obs[k]
+            if o == [-1] or c['kind'] not in ('dlocup', 'ddown'):
+                continue
+            pl = []
+            try:
+                for v in read_bmp_stream(o[0], 0):
+                    for pdu in v.get('pdus', []):
+                        where.append(pl); pl.append(None)
+                        jobs.append([[IPV4, IPV6], 0, pdu])
+            except Bad:
+                pass
+            o.append(pl)
         if jobs:
             pres, err = self._harness('parse', jobs)
             if pres is None:
@@ -793,6 +1169,9 @@ class Prop:
         if k == 'dconv': return [0, c['change']]
         if k == 'dloc': return [1, c['family'], c['net'], c['attrs'], c['nexthop'], c['ts'], c['rid'], c['asn']]
         if k == 'dflush': return [2, c['changes'], c['addr'], c['hdr'], c['flags']]
+        if k == 'dlocup': return [3, c['rid'], c['asn']]
+        if k == 'ddown': return [4, c['reason'], c['hdr']]
+        if k == 'dout': return [5, c['peer'], c['family'], c['addpath'], c['entry'], c['attrs'], c['nexthop'], c['ts']]
         if k == 'dmrt': return [0, c['change']]
         return [1, c['rid'], c['routes']]
 
@@ -828,6 +1207,16 @@ class Prop:
                 terms.append('run_loc %s (%s) %s (%s) %s %s %s %s' % (
                     cN(c['family']), cval(c['net']), ('(Some (%s))' % cval(attrs_enc(c['attrs'][0]))) if c['attrs'] else 'None',
                     cval(c['nexthop']), cN(c['ts']), cbytes(c['rid']), cN(c['asn']), cbytes(o[1])))
+            elif c['kind'] == 'dlocup':
+                terms.append('run_locup %s %s %s' % (cbytes(c['rid']), cN(c['asn']), cbytes(o[1][0])))
+            elif c['kind'] == 'ddown':
+                r = c['reason']
+                sd = 'None' if not r else '(Some %s)' % {0: 'SDHoldTimerExpired', 1: '(SDRemoteNotification %s)' % cbytes(o[1]), 2: '(SDLocalNotification %s)' % cbytes(o[1]),
+                                                         3: 'SDFsmError', 4: 'SDAdminShutdown', 5: 'SDIoError'}[r[0]]
+                terms.append('run_down %s %s' % (sd, cpph(c['hdr'])))
+            elif c['kind'] == 'dout':
+                terms.append('run_out_update %s (%s) %s (%s)' % (cN(c['family']), cval(c['entry']),
+                             ('(Some (%s))' % cval(attrs_enc(c['attrs'][0]))) if c['attrs'] else 'None', cval(c['nexthop'])))
             elif c['kind'] == 'dflush':
                 terms.append('run_flush %s %s %s %s' % (clist([cchange(x) for x in c['changes']]), cip(c['addr']), cpph(c['hdr']), cN(c['flags'])))
             elif c['kind'] == 'dmrt':
@@ -858,6 +1247,12 @@ class Prop:
         if k == 'dconv':
             return obs
         if k == 'dloc':
+            return obs
+        if k == 'dlocup':
+            return obs[:7]
+        if k == 'ddown':
+            return obs[:4]
+        if k == 'dout':
             return obs
         if k == 'dmrt':
             return obs[:4]
@@ -908,6 +1303,48 @@ class Prop:
         if k == 'dconv':
             if obs != update_desc(c['change']):
                 return 'adj_rib_in_to_bmp_update built %s from a change that says %s' % (obs, update_desc(c['change']))
+            return None
+        if k == 'dout':
+            want = [2, 0, c['family'], [c['entry']], c['nexthop'], attrs_enc(c['attrs'][0])] if c['attrs'] else [2, 1, c['family'], [c['entry']]]
+            if obs != want:
+                return 'adj_rib_out_to_bmp_update built %s from a change that says %s' % (obs, want)
+            return None
+        if k == 'dlocup':
+            try:
+                views = read_bmp_stream(obs[0], 0)
+            except Bad as e:
+                return 'Loc-RIB Peer Up does not read back: %s' % e
+            if len(views) != 1 or views[0]['ty'] != 3:
+                return 'Loc-RIB Peer Up is not exactly one Peer Up message'
+            v = views[0]
+            why = check_peer(v['peer'], [3, 0, c['asn'], c['rid'], 0, [0, 0, 0, 0], 0], 'Loc-RIB Peer Up header')
+            if why: return why
+            if v['laddr'] != [0] * 16 or v['lport'] or v['rport'] or v['info']:
+                return 'Loc-RIB Peer Up local address/ports/TLVs are not the zero ones'
+            for p, nm in zip(obs[-1], ('sent', 'received')):
+                # RFC 9069 4.4: a fabricated OPEN that states the local AS and BGP identifier
+                if p[0] != 1 or p[1] != c['asn'] or p[3] != dec(c['rid']) or p[-1] != 0:
+                    return '%s OPEN of the Loc-RIB peer parses back as AS %s id %s, the router is AS %d id %d' % (
+                        nm, p[1] if len(p) > 1 else p, p[3] if len(p) > 3 else '?', c['asn'], dec(c['rid']))
+            return None
+        if k == 'ddown':
+            r = c['reason']
+            want_code = 4 if not r else {0: 2, 1: 3, 2: 1, 3: 2, 4: 2, 5: 4}[r[0]]
+            try:
+                views = read_bmp_stream(obs[0], 0)
+            except Bad as e:
+                return 'Peer Down does not read back: %s' % e
+            if len(views) != 1 or views[0]['ty'] != 2:
+                return 'not exactly one Peer Down message'
+            v = views[0]
+            why = check_peer(v['peer'], c['hdr'], 'Peer Down header')
+            if why: return why
+            if v['reason'] != want_code:
+                return 'Peer Down reason %d for session-down cause %s' % (v['reason'], r)
+            if want_code in (1, 3):
+                p = obs[-1][0]
+                if p[:4] != [3, r[1][1], r[1][2], expand(r[1][3])]:
+                    return 'NOTIFICATION of the Peer Down parsed back as %s' % (p,)
             return None
         if k == 'dloc':
             want = [2, 0 if c['attrs'] else 1, c['family'], [[0, c['net']]]] + ([c['nexthop'], attrs_enc(c['attrs'][0])] if c['attrs'] else [])
@@ -1037,10 +1474,8 @@ class Prop:
                     return '%s: address family %d for a %s peer' % (what, v['afi'], 'IPv6' if v6 else 'IPv4')
                 if (v['peer_as'], v['local_as'], v['ifidx'], v['peer_ip'], v['local_ip']) != (h[0], h[1], h[2], h[3], h[4]):
                     return '%s: BGP4MP header fields differ from the monitored ones' % what
-            why = check_update(spec, ap, [p[0] for p in mparsed])
-            if why == KNOWN3:
-                known = KNOWN3
-            elif why:
+            why = check_msg(spec, ap, [p[0] for p in mparsed])
+            if why:
                 return '%s: %s' % (what, why)
         if vi != len(views):
             return '%d MRT records in the stream beyond those monitored' % (len(views) - vi)
@@ -1129,8 +1564,7 @@ class Prop:
                     why = check_peer(v['peer'], m[1], what)
                     if why: return why
                 why = check_update(m[2], m[3], [p[0] for p in mparsed])
-                if why == KNOWN3: known = KNOWN3
-                elif why: return '%s: %s' % (what, why)
+                if why: return '%s: %s' % (what, why)
                 continue
             if vi >= len(views):
                 return '%s: missing from the stream' % what
@@ -1152,7 +1586,7 @@ class Prop:
                     return '%s: FSM code differs' % what
                 if r[0] in (1, 3):
                     p = pp[0]
-                    if p[:4] != [3, r[1][1], r[1][2], r[1][3]]:
+                    if p[:4] != [3, r[1][1], r[1][2], expand(r[1][3])]:
                         return '%s: NOTIFICATION parsed back as %s' % (what, p)
             elif m[0] == 3:
                 la = m[2]
@@ -1169,11 +1603,6 @@ class Prop:
         return known
 
     def in_known_class(self, kf, c, obs, why):
-        if kf['id'] == 'C19-3':
-            # decidable class of the input: some monitored announcement is IPv4 unicast with an IPv6
-            # next hop; and the only thing the oracle found wrong is the listed symptom
-            ups = [m[2] for m in c.get('msgs', []) if c['kind'] == 'bmp' and m[0] == 0] +                   [m[1] for m in c.get('msgs', []) if c['kind'] == 'mrt']
-            return why == KNOWN3 and any(known3(u) for u in ups)
         return False
 
     def nontrivial_key(self, c, obs):
@@ -1183,6 +1612,12 @@ class Prop:
         if c['kind'] in ('dconv', 'dmrt'):
             ch = c['change']
             return (c['kind'], ch[1], ch[2], len(ch[3]), bool(ch[4]), len(ch[0][0]), len(ch[5][0]) if ch[5] else 0)
+        if c['kind'] == 'dlocup':
+            return ('dlocup', c['asn'], tuple(c['rid']))
+        if c['kind'] == 'ddown':
+            return ('ddown', json.dumps(c['reason']), len(c['hdr'][5]))
+        if c['kind'] == 'dout':
+            return ('dout', c['family'], c['addpath'], bool(c['attrs']))
         if c['kind'] == 'dloc':
             return ('dloc', c['family'], bool(c['attrs']), c['net'][1], c['asn'], c['ts'])
         if c['kind'] == 'dflush':
@@ -1205,11 +1640,11 @@ class Prop:
             if c['kind'] == 'mrt':
                 try: nfr = len(split_frames(bl[0]))
                 except Bad: nfr = -1
-                key.append((len(m[0][3]), len(m[0][4]), m[0][5], m[1][1], m[1][2], m[2], nfr, min(len(bl[0]) // 64, 80)))
+                key.append((len(m[0][3]), len(m[0][4]), m[0][5]) + uinfo(m[1]) + (m[2], nfr, min(len(bl[0]) // 64, 80)))
             elif m[0] == 0:
                 try: nfr = len(split_frames(bl[0]))
                 except Bad: nfr = -1
-                key.append((0, len(m[1][5]), m[2][1], m[2][2], m[3], nfr, min(len(bl[0]) // 64, 80)))
+                key.append((0, len(m[1][5])) + uinfo(m[2]) + (m[3], nfr, min(len(bl[0]) // 64, 80)))
             elif m[0] == 3:
                 key.append((3, len(m[1][5]), len(m[2]), len(bl[0]), len(bl[1])))
             elif m[0] == 2:
@@ -1220,6 +1655,8 @@ class Prop:
 
     def classify(self, c, obs):
         tags = [c['kind']]
+        if c.get('cls'):
+            tags.append('enum:' + c['cls'])
         if c.get('api_only'):
             tags.append('correspondence_only')
         if obs == [-1]:
@@ -1252,7 +1689,10 @@ class Prop:
                 if m[0] != 0:
                     continue
                 u, ap = m[2], m[3]
-            tags.append(['reach', 'unreach', 'eor'][u[1]] + ('_v6' if u[2] == IPV6 else '_v4'))
+            if u[0] != 2:
+                tags.append('embedded_' + {1: 'open', 3: 'notification', 4: 'keepalive', 5: 'route_refresh'}[u[0]])
+                continue
+            tags.append(['reach', 'unreach', 'eor'][u[1]] + ('_v6' if u[2] >> 16 == 2 else '_v4') + ('_multicast' if u[2] & 255 == 2 else ''))
             if ap: tags.append('addpath')
             try:
                 if len(split_frames(bl[0])) > 1: tags.append('update_split_into_frames')
